@@ -431,6 +431,15 @@ def _check_codec(name, mod, fmt, x, c):
     back = mod.loads(doc)
     if len(back) != 2:
         return "%s: dumps/loads of a two-item document gives %d items" % (name, len(back))
+    # single vs list API: an item of a document is what the single-item functions give for it
+    for b in back:
+        gb = project(dmrs_obs(b), True, True, fmt)
+        if fmt == "penman":
+            ca, cb = _canon_penman(got), _canon_penman(gb)
+            if ca is not None and ca != cb:
+                return "%s: an item read from a document differs from decode(encode(item))" % name
+        elif gb != got:
+            return "%s: an item read from a document differs from decode(encode(item))" % name
     if fmt != "penman" and mod.dumps(back, properties=p, lnk=l, indent=indent) != doc:
         return "%s: dumps(loads(doc)) differs from doc" % name
     return None
@@ -471,6 +480,16 @@ def oracle(c):
             back = mod.loads(doc)
             if len(back) != len(xs):
                 return "%s: a document of %d items reads back as %d" % (name, len(xs), len(back))
+            for x, b in zip(xs, back):
+                one = project(dmrs_obs(mod.decode(mod.encode(x, properties=c["p"], lnk=c["l"], indent=c["indent"]))),
+                              True, True, fmt)
+                gb = project(dmrs_obs(b), True, True, fmt)
+                if fmt == "penman":
+                    ca, cb = _canon_penman(one), _canon_penman(gb)
+                    if ca is not None and ca != cb:
+                        return "%s: an item read from a document differs from decode(encode(item))" % name
+                elif gb != one:
+                    return "%s: an item read from a document differs from decode(encode(item))" % name
             if fmt != "penman" and mod.dumps(back, properties=c["p"], lnk=c["l"], indent=c["indent"]) != doc:
                 return "%s: dumps(loads(doc)) differs from doc" % name
         return None
